@@ -89,7 +89,10 @@ MANIFEST = dict(
          "xz / LZMA2 with a chosen chunk layout (own .xz container + LZMA range encoder, refereed by liblzma: uncompressed and LZMA chunks mixed, small "
          "dictionaries 4 KiB..64 KiB(..256 KiB) that wrap inside both kinds of chunk, matches at distances up to the full dictionary size right after a "
          "wrap; signatures oracle:xz:* stay apart from the known finding xz:dict_size>XZ_MAX_DICT); degenerate members -- empty and one byte -- through "
-         "every container writer must come back exactly or be refused cleanly (oracle:<codec>:degenerate, harness-abort:dp:degenerate:*), and excluded `*.ext` members inside sub-directories in front of a module "
+         "every container writer must come back exactly or be refused cleanly (oracle:<codec>:degenerate, harness-abort:dp:degenerate:*); the two-stage "
+         "ARC methods (RLE90 + LZW, decoder re-entered per 8192-byte window) get strings of not-yet-known codes (KwKwK), long strings, code-width "
+         "changes, table-full and reset events laid across the window borders with an offset sweep (found with the encoder's own statistics); an own "
+         "-lh1- encoder (LZHUF: LZSS + adaptive Huffman with its rebuild at root count 0x8000) with members long enough for several tree rebuilds, and excluded `*.ext` members inside sub-directories in front of a module "
          "that sits in a sub-directory (zip, LZX, LHA, ARC, ArcFS)."
          " DEFLATE: XmpModel.Inflate mirrors libxmp_tinfl_decompress as libxmp calls it (stored / fixed / dynamic blocks, tinfl's "
          "table-acceptance rule incl. empty and one-symbol code sets, symbols 286/287 and 30/31, distance and end-of-input tests); "
@@ -362,6 +365,89 @@ def boundary_payloads(rng, quick):
     return out
 
 
+def lzw_window_payloads(rng, quick):
+    """(name, payload, reset_every): inputs for the two-stage ARC methods (RLE90 + LZW; the LZW decoder is re-entered
+    for every 8192-byte window of the intermediate stream).  Compressible filler without runs and without 0x90 (so the
+    intermediate stream equals the input) keeps the string table small and its strings long; stretches of a fresh
+    self-overlapping pattern (period 1+1, 2 or 3: their codes arrive before the decoder has the entry) are laid across
+    the multiples of 8192 with a sweep of offsets.  Returned only if a string of such a code really straddles a window
+    border (found with the encoder's own statistics)."""
+    out = []
+    tries = 0
+    while len(out) < (6 if quick else 40) and tries < 200:
+        tries += 1
+        nwin = rng.choice([2, 3, 4])
+        block = bytearray()
+        while len(block) < rng.choice([40, 300, 900]):
+            b = rng.randrange(1, 0x80)
+            if len(block) < 2 or not (block[-1] == b and block[-2] == b):
+                block.append(b)
+        body = bytearray()
+        fresh = 0xa0
+        for m in range(1, nwin + 1):
+            start = m * 8192 - rng.choice([1, 2, 5, 9, 17, 33, 60, 100, 200, rng.randrange(1, 400)])
+            while len(body) < start:
+                chunk = bytearray(block)
+                if rng.random() < 0.5:
+                    chunk[rng.randrange(len(chunk))] = rng.randrange(1, 0x80)
+                body += chunk
+            del body[start:]
+            while len(body) >= 3 and body[-1] == body[-2] == body[-3]:
+                body[-1] = (body[-1] % 0x7f) + 1
+            period = rng.choice([2, 2, 3])
+            pat = bytes(fresh + i for i in range(period))
+            fresh += period
+            body += (pat * 300)[:rng.choice([60, 420, 700])]
+        body += bytes(block)
+        p = bytes(body)
+        if W.rle90_encode(p) != p:
+            continue
+        rs = rng.choice([0, 0, 30, 300])
+        st = {}
+        W.arc_lzw(p, 12, rs, stats=st)
+        hits = [(a, b) for a, b in st["kwkwk"] if a // 8192 != (b - 1) // 8192]
+        if hits:
+            out.append(("window-kwkwk-%dw-reset%d-at%d" % (nwin, rs, hits[0][0]), p, rs))
+    return out
+
+
+def lzw_aligned_event_payloads(rng, quick):
+    """(name, payload, reset_every): vocabulary text (no runs, no 0x90) behind a period-2 prefix (many bytes, few table
+    entries) whose length is swept until an event of the LZW coder -- a code-width change, the table becoming full, a
+    reset code -- falls within two bytes of a multiple of 8192 of the intermediate stream, i.e. at a re-entry of the
+    window decoder (found with the encoder's own statistics)"""
+    out = []
+    for wanted in (["width11", "full"] if quick else ["width10", "width11", "width12", "full", "reset", "width11", "full", "reset"]):
+        vocab = [bytes(rng.randrange(1, 0x80) for _ in range(rng.randint(2, 7))) for _ in range(rng.choice([40, 200]))]
+        body = bytearray()
+        while len(body) < 22000:
+            body += rng.choice(vocab)
+        for i in range(2, len(body)):
+            if body[i] == body[i - 1] == body[i - 2]:
+                body[i] = (body[i] % 0x7f) + 1
+        body = bytes(body)
+        rs = 150 if wanted == "reset" else rng.choice([0, 150])
+        st = {}
+        W.arc_lzw(body, 12, rs, stats=st)
+        ev = [pos for n, pos in st["events"] if n == wanted]
+        if not ev:
+            continue
+        k = (-ev[0]) % 8192
+        for it in range(40):
+            p = (b"\xf0\xf1" * (k // 2 + 1))[:k] + body
+            st = {}
+            W.arc_lzw(p, 12, rs, stats=st)
+            pos = [q for n, q in st["events"] if n == wanted]
+            if not pos:
+                break
+            if pos[0] >= 8190 and (pos[0] % 8192 <= 2 or pos[0] % 8192 >= 8190):
+                out.append(("window-%s-at%d-reset%d" % (wanted, pos[0], rs), p, rs))
+                break
+            miss = (-pos[0]) % 8192
+            k += miss if miss < 4096 else 1          # the prefix costs a few table entries: approach from below, then step
+    return out
+
+
 def lzw_boundary_payloads(rng, quick):
     """(name, payload, method, stream): inputs cut around the points where the ARC LZW coder (crunch 12 bit after RLE90,
     squash 13 bit, Spark compress 9..16 bit) widens its codes and where its table becomes full, +-2 bytes"""
@@ -413,6 +499,7 @@ def corr_boundary(ck, exe, workdir, quick):
         # static-Huffman LHA methods (own LZ77 + Huffman encoder; the dictionary in front of the file holds blanks)
         for m in ([b"-lh5-", rng.choice([b"-lh4-", b"-lh6-", b"-lh7-"])] if quick else [b"-lh4-", b"-lh5-", b"-lh6-", b"-lh7-"]):
             streams.append(("lha", W.lha_archive([("a.mod", p, m, W.lh_new_encode(p, m, rng)[0])], rng.choice([0, 1, 2]))))
+        streams.append(("lha", W.lha_archive([("a.mod", p, b"-lh1-", W.lh1_encode(p, rng)[0])], rng.choice([0, 1, 2]))))
         # ARC squeeze (RLE90 + Huffman, node table), crunch / squash / compress (LZW), in ARC, Spark and ArcFS containers
         shape = rng.choice(["huffman", "huffman", "random", "chain"])
         streams.append(("arc", W.arc_archive([("A.MOD", p, 4, W.squeeze_encode(p, rng, shape))], rng.random() < 0.5)))
@@ -448,6 +535,27 @@ def corr_boundary(ck, exe, workdir, quick):
             items.append((codec, st))
             meta.append((codec, name, p))
         ck.bump("lzw_boundary_streams", len(sts))
+    # strings of not-yet-known codes (KwKwK) and long strings across the 8192-byte windows of the two-stage ARC methods
+    for name, p, rs in lzw_window_payloads(rng, quick) + lzw_aligned_event_payloads(rng, quick):
+        sts = [("arc", W.arc_archive([("A.MOD", p, 8, W.arc_crunch(p, rs))], False)),
+               ("arc", W.arc_archive([("A.MOD", p, 8, W.arc_crunch(p, rs))], True)),
+               ("arcfs", W.arcfs_archive([("a/mod", p, 0x88, W.arc_lzw(W.rle90_encode(p), 12, rs), 12)])),
+               ("arc", W.arc_archive([("A.MOD", p, 9, W.arc_squash(p, rs))], rng.random() < 0.5)),
+               ("arc", W.arc_archive([("A.MOD", p, 0x7f, W.spark_compress(p, rng.randint(12, 16), rs))], True))]
+        for codec, st in sts:
+            items.append((codec, st))
+            meta.append((codec, name, p))
+        ck.bump("lzw_window_straddling_streams", len(sts))
+    # long -lh1- members: the adaptive Huffman tree is rebuilt every 32768 codes -- several rebuilds per member
+    for n in ([45000, 120000] if quick else [33000, 45000, 70000, 120000, 300000]):
+        kind = rng.choice(["rand", "skew", "low"])
+        p = bytes(rng.getrandbits(8) for _ in range(n)) if kind == "rand" else \
+            bytes(min(255, int(rng.expovariate(0.08))) for _ in range(n)) if kind == "skew" else \
+            bytes(rng.getrandbits(3) for _ in range(4 * n))
+        st, toks, rebuilds = W.lh1_encode(p, rng)
+        items.append(("lha", W.lha_archive([("a.mod", p, b"-lh1-", st)], rng.choice([0, 1, 2]))))
+        meta.append(("lha", "lh1-%s-%dcodes-%drebuilds" % (kind, len(toks), rebuilds), p))
+        ck.bump("lh1_tree_rebuilds_exercised", rebuilds)
     # xz / LZMA2 chunk layouts of the own writer (refereed by liblzma) on raw payloads, small dictionaries
     for D in ([4096, 8192, 16384] if quick else [4096, 6144, 8192, 16384, 32768, 65536]):
         for _ in range(2 if quick else 4):
@@ -488,6 +596,7 @@ def corr_degenerate(ck, exe, workdir, minsize=22):
             ("lha", lambda: W.lha_archive([("a.mod", p)], rng.choice([0, 1, 2]))),
             ("lha", lambda: W.lha_archive([("a.mod", p, b"-lh5-", W.lh_new_encode(p, b"-lh5-", rng)[0])], rng.choice([0, 1, 2]))),
             ("lha", lambda: W.lha_archive([("a.mod", p, b"-lh7-", W.lh_new_encode(p, b"-lh7-", rng)[0])], 1)),
+            ("lha", lambda: W.lha_archive([("a.mod", p, b"-lh1-", W.lh1_encode(p, rng)[0])], rng.choice([0, 1]))),
             ("lzx", lambda: W.lzx_archive([("a.mod", p)])),
             ("pp", lambda: W.pp20(p, use_matches=True)),
         ]
@@ -761,11 +870,15 @@ def make_archive(rng, fmt, p, xzmax, force=None):
         nm = rnd_name(rng)
         if sub or rng.random() < 0.3:
             nm = rng.choice(["mods/", "a/b/"]) + nm
-        meth = force.get("lha_method", rng.choice([b"-lh0-", b"-lh0-", b"-lh5-", b"-lh5-", b"-lh4-", b"-lh6-", b"-lh7-"]))
+        meth = force.get("lha_method", rng.choice([b"-lh0-", b"-lh0-", b"-lh5-", b"-lh5-", b"-lh4-", b"-lh6-", b"-lh7-", b"-lh1-", b"-lh1-"]))
         if len(p) > 300000:
             meth = b"-lh0-"
         if meth == b"-lh0-":
             members = pre + [(nm, p)] + post
+        elif meth == b"-lh1-":
+            st, toks, rebuilds = W.lh1_encode(p, rng)
+            members = pre + [(nm, p, meth, st)] + post
+            r.update(dict(tokens=len(toks), tree_rebuilds=rebuilds))
         else:
             st, toks = W.lh_new_encode(p, meth, rng)
             members = pre + [(nm, p, meth, st)] + post
@@ -2218,6 +2331,11 @@ def run(ck):
     for m in (b"-lh5-", b"-lh6-", b"-lh7-", b"-lh4-"):
         for _ in range(2 if quick else 10):
             plan.append((ck.rng.choice(pool), "lha", {"lha_method": m}))
+    # -lh1-: members long enough for several rebuilds of the adaptive tree (every 32768 codes), and ordinary ones
+    longp = sorted([p for p in pool if 45000 <= len(p["data"]) <= 300000], key=lambda p: -len(p["data"]))
+    for p in (longp[:3] if quick else longp[:12]) + [ck.rng.choice(pool) for _ in range(2 if quick else 10)]:
+        plan.append((p, "lha", {"lha_method": b"-lh1-"}))
+    ck.note("lh1_long_modules", len(longp))
     # ARC squeeze / crunch / squash / compress members (own Huffman and LZW encoders) in ARC, Spark and ArcFS
     for m in (4, 4, 8, 9):
         for _ in range(2 if quick else 8):
